@@ -9,11 +9,11 @@ from .verify import solve, verify_function
 
 
 def main(argv):
-    idx = Index()
     import os
 
     root = os.path.dirname(os.path.dirname(os.path.dirname(os.path.abspath(__file__))))
     reg = load_sidecars(sorted(glob.glob(os.path.join(root, "contracts", "*.py"))))
+    idx = Index(extern=reg.extern_modules)
     rc = 0
     verbose = "-v" in argv
     for q in [a for a in argv if not a.startswith("-")]:
